@@ -44,6 +44,16 @@ package service
 //@        && !(APReq.Authenticator.CTime.Add(int64(APReq.Authenticator.Cusec) * 1000).Sub(now#2) > ite(s.maxClockSkew == 0, 300000000000, s.maxClockSkew))
 //@   ensures ok ==> names_equal(creds.cname, APReq.Ticket.DecryptedEncPart.CName) && creds.realm == APReq.Ticket.DecryptedEncPart.CRealm
 //@        && creds.validUntil == APReq.Ticket.DecryptedEncPart.EndTime && creds.authenticated
+// Completeness direction: refusal always carries an error, and a refusal before the identity is built carries an
+// RFC 4120 error code only when that code's condition holds (skew is the configured or default five minutes).
+//@   ensures !ok ==> err != nil
+//@   ensures creds == nil && krberr(err, 33) ==> APReq.Ticket.DecryptedEncPart.StartTime.Sub(now#1) > ite(s.maxClockSkew == 0, 300000000000, s.maxClockSkew) || flagset(APReq.Ticket.DecryptedEncPart.Flags, 7)
+//@   ensures creds == nil && krberr(err, 32) ==> (now#1).Sub(APReq.Ticket.DecryptedEncPart.EndTime) > ite(s.maxClockSkew == 0, 300000000000, s.maxClockSkew)
+//@   ensures creds == nil && krberr(err, 38) ==> (len(APReq.Ticket.DecryptedEncPart.CAddr) > 0 && !addr_in(APReq.Ticket.DecryptedEncPart.CAddr, s.cAddr))
+//@        || (s.requireHostAddr && len(APReq.Ticket.DecryptedEncPart.CAddr) < 1)
+//@   ensures creds == nil && krberr(err, 36) ==> !names_equal(APReq.Authenticator.CName, APReq.Ticket.DecryptedEncPart.CName) || APReq.Authenticator.CRealm != APReq.Ticket.DecryptedEncPart.CRealm
+//@   ensures creds == nil && krberr(err, 37) ==> (now#2).Sub(APReq.Authenticator.CTime.Add(int64(APReq.Authenticator.Cusec) * 1000)) > ite(s.maxClockSkew == 0, 300000000000, s.maxClockSkew)
+//@        || APReq.Authenticator.CTime.Add(int64(APReq.Authenticator.Cusec) * 1000).Sub(now#2) > ite(s.maxClockSkew == 0, 300000000000, s.maxClockSkew)
 
 // Replay cache as seen by VerifyAPREQ (its own contract is property C02): only the cache's own maps change.
 //@ func (*service.Cache).IsReplay(c, sname, a) (r)
